@@ -407,8 +407,17 @@ fn check(case: &Case, obs: &mut Obs) -> Verdict {
             (Some(o), false) => Some((i, o, !t.loaded)),
             _ => None,
         }).collect();
-        if let Err(d) = crate::props::pyleg::c11_leg(src, &bytes, &be, &bl, &untouched) {
-            return Verdict::fail(d.key, d.detail);
+        // big workbooks (a gigabyte per decode) go through the Python leg one at a time, and
+        // only for a fixed eighth of the cases that use them (chosen by the case content)
+        let big = original.sheets.iter().map(|s| s.cells.len()).sum::<usize>() > crate::props::pyleg::BIG_CELLS;
+        let sampled_out = big && fnv(serde_json::to_string(case).unwrap_or_default().as_bytes()) % 8 != 0;
+        if sampled_out {
+            obs.class("python-leg:skipped-big-workbook");
+        } else {
+            obs.class(if big { "python-leg:big-workbook" } else { "python-leg" });
+            if let Err(d) = crate::props::pyleg::c11_leg(src, &bytes, &be, &bl, &untouched, big) {
+                return Verdict::fail(d.key, d.detail);
+            }
         }
     }
     if re.get_sheet_count() != rl.get_sheet_count() {
